@@ -1612,7 +1612,11 @@ _ical_pull(struct ical_parser_s p[static 1U])
 		 * to start with a single allowed whitespace in
 		 * which case we enter the normal chop_more
 		 * procedure */
-		if (LIKELY(*BP != ' ' && *BP != '\t')) {
+		if (UNLIKELY(!BZ)) {
+			/* nothing there, as in the last pull or after an
+			 * empty push at the end of the input */
+			goto proc;
+		} else if (LIKELY(*BP != ' ' && *BP != '\t')) {
 			goto proc;
 		}
 		/* just get on with it, that's the whitespace of the
@@ -1636,6 +1640,8 @@ chop_more:
 		size_t sz = sizeof(p->stash) - p->six;
 
 		p->six += esccpy(sp, sz, BP, BZ);
+		/* that's the buffer gone */
+		BI = p->bsz;
 		if (eol != NULL) {
 			/* means at least we've seen a \n up there
 			 * leave a mark so the pre-examination in the
